@@ -24,6 +24,9 @@ type coreEvent struct {
 	K  string `json:"k"`
 	A  int    `json:"a"`
 	B  int    `json:"b"`
+	// LogA only
+	Mc   string   `json:"mc,omitempty"`
+	Args []string `json:"args,omitempty"`
 }
 
 type coreOpt struct {
@@ -40,6 +43,7 @@ type customLevel struct {
 }
 
 type coreScript struct {
+	Seed       int64         `json:"seed"`
 	InitLevel  int           `json:"init_level"`
 	Obs        []string      `json:"obs"`
 	ProbeSevs  []int         `json:"probe_sevs"`
@@ -308,6 +312,8 @@ func (r *coreRun) exec(ev coreEvent) (rec map[string]any) {
 		slog.SetDefault(l)
 	case "LogF":
 		r.logF(l, ev, rec)
+	case "LogA":
+		r.logA(l, ev, rec)
 	default:
 		panic("unknown op " + ev.Op)
 	}
